@@ -64,7 +64,7 @@ def make_rank_fn(case, g, serial_oracle):
                 if other != case['start']:
                     g2, _ = phys.setup_f(comm, ckw, other)
                     Fo = phys.assemble([phys.block(g2)], npts, 'init ' + other)
-                    if not (phys.relerr(Fo, F0) <= 1e-15):
+                    if not (phys.relerr(Fo, F0) <= 1e-13):
                         raise OracleFail('init-layout-dependent', dict(layouts=[case['start'], other],
                                                                        relerr=phys.relerr(Fo, F0)))
             want = ref.init_ref([np.asarray(e) for e in f.eta_grid], ref.constants_dict(constants))
@@ -73,9 +73,8 @@ def make_rank_fn(case, g, serial_oracle):
         lay = f.getLayout(f.currentLayout)
         pert = phys.smooth_noise(npts, case['fseed'], amp=0.2)
         f.getAllData()[:] *= (1.0 + cm.local(pert, lay))
+        phys.check_forced(f, g)
         pipe = phys.Pipeline(comm, f, constants)
-        if [int(x) for x in pipe.nprocs] != list(g):
-            raise RuntimeError('forced process grid not used: %r vs %r' % (pipe.nprocs, g))
         pipe.parGradVals[:] = np.nan
         phi = pipe.phi
         PHI = case['phiamp'] * phys.smooth_noise(npts[:3], case['fseed'] + 17, amp=1.0)
